@@ -1353,6 +1353,63 @@ func c25SeqRun(h *History, tg *c25Targets, kind string, kinds []string, restartA
 	return res, position
 }
 
+// c25OrderHistory: a short recorded history in which a committed limit order is PARTIALLY filled by two small sales in
+// one block and again in the next one, and its rest is then taken back by its owner: between those transactions the
+// order lives only in the pool's in-memory cache (changed volumes), which is exactly what a limit-order query reads.
+func c25OrderHistory(seed uint64) (*History, *c25Targets, string) {
+	r := NewRng(seed ^ 0x0bde8)
+	spec := &GenesisSpec{NAccounts: 6, Balance: pip(100000000), NVals: 3}
+	n := newNode(spec)
+	defer n.Cleanup()
+	h := &History{Spec: spec}
+	a := n.Accts
+	step := func(txs ...[]byte) *BlockResult {
+		br := n.Block(txs, nil)
+		h.Blocks = append(h.Blocks, RecBlock{Txs: txs})
+		return br
+	}
+	var sym types.CoinSymbol
+	copy(sym[:], []byte("ORDERTOKEN"))
+	br := step(n.MkTx(a[0], transaction.TypeCreateToken, transaction.CreateTokenData{Name: "t", Symbol: sym, InitialAmount: pip(5000000), MaxSupply: pip(9000000), Mintable: true, Burnable: true}, 0, 0, 1, nil))
+	if len(br.Txs) != 1 || br.Txs[0].Code != 0 {
+		return nil, nil, "CreateToken rejected"
+	}
+	var id int
+	fmt.Sscan(br.Txs[0].Tags["tx.coin_id"], &id)
+	tok := types.CoinID(id)
+	br = step(n.MkTx(a[0], transaction.TypeCreateSwapPool, transaction.CreateSwapPoolData{Coin0: tok, Coin1: 0, Volume0: pip(int64(8000 + r.Intn(4000))), Volume1: pip(int64(8000 + r.Intn(4000)))}, 0, 0, 1, nil),
+		n.MkTx(a[1], transaction.TypeSend, transaction.SendData{Coin: 0, To: a[2].Addr, Value: pip(1)}, 0, 0, 1, nil))
+	if br.Txs[0].Code != 0 {
+		return nil, nil, "CreateSwapPool rejected"
+	}
+	step(n.MkTx(a[0], transaction.TypeSend, transaction.SendData{Coin: tok, To: a[1].Addr, Value: pip(100000)}, 0, 0, 1, nil))
+	// the order: a1 sells the token just above the pool price, in an amount the sales below cannot exhaust
+	x0, x1, _ := n.App.CurrentState().Swap().SwapPool(tok, 0)
+	vs := pip(int64(3000 + r.Intn(3000)))
+	vb := new(big.Int).Div(new(big.Int).Mul(vs, x1), x0)
+	vb.Mul(vb, Z(int64(1001+r.Intn(5)))).Div(vb, Z(1000)) // 0.1-0.5 % dearer than the pool: the first sale below reaches it
+	br = step(n.MkTx(a[1], transaction.TypeAddLimitOrder, transaction.AddLimitOrderData{CoinToSell: tok, ValueToSell: vs, CoinToBuy: 0, ValueToBuy: vb}, 0, 0, 1, nil))
+	if br.Txs[0].Code != 0 {
+		return nil, nil, fmt.Sprintf("AddLimitOrder rejected: %d %s", br.Txs[0].Code, br.Txs[0].Log)
+	}
+	sell := func(who Acct) []byte {
+		return n.MkTx(who, transaction.TypeSellSwapPool, transaction.SellSwapPoolDataV260{Coins: []types.CoinID{0, tok}, ValueToSell: pip(int64(20 + r.Intn(200))), MinimumValueToBuy: Z(1)}, 0, 0, 1, nil)
+	}
+	step(sell(a[2]), sell(a[3]), n.MkTx(a[4], transaction.TypeSend, transaction.SendData{Coin: 0, To: a[5].Addr, Value: pip(1)}, 0, 0, 1, nil))
+	step(sell(a[4]), sell(a[2]))
+	step(n.MkTx(a[1], transaction.TypeRemoveLimitOrder, transaction.RemoveLimitOrderData{ID: 1}, 0, 0, 1, nil), sell(a[3]))
+	step(sell(a[5]))
+	step()
+	tg := &c25Targets{H0: uint64(InitialHeight), Coins: []uint64{0, uint64(tok), uint64(tok) + 1}, Syms: []string{"BIP", "ORDERTOKEN"}, Pools: [][2]uint64{{uint64(tok), 0}}, Orders: []uint64{1, 2}}
+	for _, ac := range a {
+		tg.Addrs = append(tg.Addrs, ac.Addr.String())
+	}
+	for _, v := range n.Vals {
+		tg.Cands = append(tg.Cands, v.Pub.String())
+	}
+	return h, tg, ""
+}
+
 func c25Sequential(seed uint64, res *c25Result, save func()) {
 	r := NewRng(seed)
 	spec := c25Spec(r)
@@ -1432,6 +1489,24 @@ func c25Sequential(seed uint64, res *c25Result, save func()) {
 		rot = append([]string{first}, c25SeqHandlers...)
 		got, pos = c25SeqRun(h, tg, first, rot, restartAt, restartAt, NewRng(seed^uint64(0x5ed+k)), res.SeqCalls)
 		check("mixed:"+first, fmt.Sprintf("node restarted before block index %d", restartAt), got, pos, refRestart)
+	}
+	// the scripted history with a partially filled committed order: the order and pool handlers, first call right after
+	// the first partial fill
+	if oh, otg, why := c25OrderHistory(seed); oh == nil {
+		res.ExecPanics = append(res.ExecPanics, "order history setup: "+why)
+	} else {
+		oref, on := runRecorded(oh, &execOpts{})
+		on.Cleanup()
+		orefR, on2 := runRecorded(oh, &execOpts{RestartAfter: map[int64]int{int64(InitialHeight) + 3: 1}})
+		on2.Cleanup()
+		if d := diffRuns(oref, orefR); d == "" {
+			for _, kind := range []string{"limit_orders", "swap_pools", "swap_pool", "best_trade", "estimate_coin_sell", "estimate_coin_buy"} {
+				got, pos := c25SeqRun(oh, otg, kind, nil, 0, 4, NewRng(seed^0x5f1), res.SeqCalls)
+				check(kind, "partially filled order, fresh node", got, pos, oref)
+				got, pos = c25SeqRun(oh, otg, kind, nil, 4, 4, NewRng(seed^0x5f2), res.SeqCalls)
+				check(kind, "partially filled order, node restarted before block index 4", got, pos, orefR)
+			}
+		}
 	}
 }
 
